@@ -85,7 +85,7 @@ pub fn generate(ctx: &mut Ctx) {
         }
         bi += 1;
     }
-    let n = ctx.by_tier(240_000u64, 3_000_000u64) / ctx.nshards;
+    let n = ctx.by_tier(240_000u64, 12_000_000u64) / ctx.nshards;
     for i in 0..n {
         let mut rng = ctx.rng("auth", i);
         let mut o = gen::Opts::new(rng.chance(1, 2));
